@@ -233,7 +233,7 @@ private:
     // stop adding work
     auto oldState = opState_.fetch_and(~stoppedBit, std::memory_order_release);
 
-    if (op_count(oldState) == 0) {
+    if (!is_stopping(oldState) && op_count(oldState) == 0) {
       // there are no outstanding operations to wait for
       evt_.set();
     }
